@@ -11,11 +11,14 @@
 package main
 
 import (
+	"archive/zip"
 	"encoding/json"
 	"fmt"
 	"io/ioutil"
 	"math/big"
 	"os"
+	"path/filepath"
+	"runtime"
 	"sort"
 	"strconv"
 	"strings"
@@ -118,13 +121,17 @@ type caseDesc struct {
 	Epoch    string   `json:"epoch,omitempty"`
 	TZ       []string `json:"tz,omitempty"`
 	// expectations (the property oracle); absent = not constrained
-	ExpectInstant *int64  `json:"expect_instant,omitempty"` // Unix seconds the RFC3339 output denotes
-	ExpectOffset  *int64  `json:"expect_offset,omitempty"`  // offset printed
-	ExpectWall    *int64  `json:"expect_wall,omitempty"`    // output without offset: its reading, as seconds
-	ExpectOut     *string `json:"expect_out,omitempty"`     // exact output (epoch numbers)
-	ExpectEmpty   bool    `json:"expect_empty,omitempty"`
-	ExpectError   bool    `json:"expect_error,omitempty"`
-	Note          string  `json:"note,omitempty"`
+	ExpectInstant *int64 `json:"expect_instant,omitempty"` // Unix seconds the RFC3339 output denotes
+	ExpectOffset  *int64 `json:"expect_offset,omitempty"`  // offset printed
+	// the wall reading printed (as seconds) and, where the zone offset has a seconds part (F23),
+	// the instant the output must denote to within that seconds part (strictly less than 60 s)
+	ExpectPrintedWall *int64  `json:"expect_printed_wall,omitempty"`
+	ExpectNear        *int64  `json:"expect_instant_within_60s,omitempty"`
+	ExpectWall        *int64  `json:"expect_wall,omitempty"` // output without offset: its reading, as seconds
+	ExpectOut         *string `json:"expect_out,omitempty"`  // exact output (epoch numbers)
+	ExpectEmpty       bool    `json:"expect_empty,omitempty"`
+	ExpectError       bool    `json:"expect_error,omitempty"`
+	Note              string  `json:"note,omitempty"`
 	// generated outside the guard "wall reading of the result within years 1..9999"
 	GuardWallYear bool `json:"guard_wall_year,omitempty"`
 }
@@ -315,6 +322,7 @@ func (e *env) fillTables(zt *ztab, t time.Time, parsed bool, parseLoc *time.Loca
 // ---- running one case -----------------------------------------------------------------------------------
 
 func (e *env) run(d caseDesc, nontrivial bool) {
+	vh.Current(e.o, d)
 	var o obs
 	var term string
 	func() {
@@ -406,7 +414,7 @@ func (e *env) run(d caseDesc, nontrivial bool) {
 	switch {
 	case o.Kind == "panic":
 		fail("the function panicked")
-	case o.Kind == "unreadable" && (d.GuardWallYear || yearOverflowText(o.Text) && d.ExpectInstant == nil && d.ExpectOffset == nil && d.ExpectWall == nil):
+	case o.Kind == "unreadable" && (d.GuardWallYear || yearOverflowText(o.Text) && d.ExpectInstant == nil && d.ExpectOffset == nil && d.ExpectWall == nil && d.ExpectNear == nil):
 		// outside the guard of the known finding "year 10000": nothing to compare
 		e.sum.Hist("guarded:output-year-outside-0000-9999")
 	case o.Kind == "unreadable":
@@ -418,7 +426,11 @@ func (e *env) run(d caseDesc, nontrivial bool) {
 	case d.ExpectInstant != nil && (o.Kind != "zoned" || o.Wall-o.Off != *d.ExpectInstant):
 		fail("the output does not denote the input instant")
 	case d.ExpectOffset != nil && (o.Kind != "zoned" || o.Off != *d.ExpectOffset):
-		fail("the output is not in the requested zone (offset differs)")
+		fail("the output is not in the requested zone (printed offset differs from Go's own RFC3339 text: sign, hours or minutes)")
+	case d.ExpectPrintedWall != nil && (o.Kind != "zoned" || o.Wall != *d.ExpectPrintedWall):
+		fail("the wall-clock reading printed is not the instant's reading in the requested zone")
+	case d.ExpectNear != nil && (o.Kind != "zoned" || o.Wall-o.Off-*d.ExpectNear >= 60 || o.Wall-o.Off-*d.ExpectNear <= -60):
+		fail("the output denotes an instant 60 s or more away from the input instant (more than the seconds part of the zone offset)")
 	case d.ExpectWall != nil && (o.Kind != "wall" || o.Wall != *d.ExpectWall):
 		fail("zone-less input did not keep its wall-clock reading (or an offset was printed)")
 	case d.ExpectOut != nil && o.Text != *d.ExpectOut:
@@ -512,6 +524,97 @@ func knownRejected(l layoutSpec) bool {
 	return strings.Contains(l.Fmt, "03:04:05.0000 PM")
 }
 
+// ---- the installed zone database: eras with an offset strictly between -01:00 and 00:00 -------------
+
+func listZoneNames() []string {
+	seen := map[string]bool{}
+	var names []string
+	add := func(n string) {
+		n = filepath.ToSlash(n)
+		if seen[n] || !strings.Contains(n, "/") || strings.HasPrefix(n, "posix/") || strings.HasPrefix(n, "right/") ||
+			strings.HasPrefix(n, "Etc/") || n[0] < 'A' || n[0] > 'Z' || strings.Contains(n, ".") {
+			return
+		}
+		seen[n] = true
+		names = append(names, n)
+	}
+	for _, dir := range []string{os.Getenv("ZONEINFO"), "/usr/share/zoneinfo", "/usr/share/lib/zoneinfo", "/usr/lib/locale/TZ"} {
+		if st, err := os.Stat(dir); dir == "" || err != nil || !st.IsDir() {
+			continue
+		}
+		_ = filepath.Walk(dir, func(p string, info os.FileInfo, err error) error {
+			if err == nil && info.Mode().IsRegular() {
+				if rel, e := filepath.Rel(dir, p); e == nil {
+					add(rel)
+				}
+			}
+			return nil
+		})
+		if len(names) > 0 {
+			break
+		}
+	}
+	if len(names) == 0 {
+		if zr, err := zip.OpenReader(filepath.Join(runtime.GOROOT(), "lib", "time", "zoneinfo.zip")); err == nil {
+			for _, f := range zr.File {
+				add(f.Name)
+			}
+			zr.Close()
+		}
+	}
+	for _, n := range []string{"Africa/Monrovia", "Europe/Lisbon", "Africa/Abidjan", "Europe/Dublin", "Atlantic/Reykjavik", "Africa/Freetown", "Africa/Accra", "Africa/Bamako"} {
+		add(n)
+	}
+	sort.Strings(names)
+	return names
+}
+
+type era struct {
+	Zone       string
+	Start, End int64 // instants [Start, End) in which Off is in force
+	Off        int64
+}
+
+// negSubHourEras: for every loadable zone, the periods in which its offset lies strictly between
+// -3600 and 0 (all of them local-mean-time style offsets; most have a seconds part).  One era per
+// distinct (offset, period); link names of the same zone are dropped.
+func negSubHourEras(names []string) []era {
+	lo := time.Date(1800, 1, 1, 0, 0, 0, 0, time.UTC).Unix()
+	hi := time.Date(2100, 1, 1, 0, 0, 0, 0, time.UTC).Unix()
+	seen := map[[3]int64]bool{}
+	var out []era
+	for _, n := range names {
+		loc, err := time.LoadLocation(n)
+		if err != nil {
+			continue
+		}
+		t := time.Unix(lo, 0).In(loc)
+		for step := 0; step < 400; step++ {
+			_, off := t.Zone()
+			start, end := t.ZoneBounds()
+			s, e := lo, hi
+			if !start.IsZero() && start.Unix() > s {
+				s = start.Unix()
+			}
+			if !end.IsZero() && end.Unix() < e {
+				e = end.Unix()
+			}
+			if off > -3600 && off < 0 && e > s {
+				k := [3]int64{int64(off), s, e}
+				if !seen[k] {
+					seen[k] = true
+					out = append(out, era{Zone: n, Start: s, End: e, Off: int64(off)})
+				}
+			}
+			if end.IsZero() || end.Unix() >= hi {
+				break
+			}
+			t = end
+		}
+	}
+	return out
+}
+
 type instantGen struct {
 	r     *vh.Rng
 	trans map[string][]int64 // zone -> transition instants
@@ -584,8 +687,12 @@ func yearOK(t time.Time) bool { return t.Year() >= 1 && t.Year() <= 9999 }
 // rfcCase renders instant t with layout l (source zone src for offset / iana forms and for the
 // reading of zone-less forms) and computes what the property demands of DateTimeToRFC3339.
 func (e *env) rfcCase(t time.Time, l layoutSpec, src, from, to string) (caseDesc, bool, string) {
-	srcLoc := e.z.locs[src]
-	if srcLoc == nil {
+	var srcLoc *time.Location
+	if strings.HasPrefix(src, "fixed:") {
+		// a numeric offset carried by the text itself (only meaningful for the offset forms)
+		sec, _ := strconv.Atoi(src[6:])
+		srcLoc = time.FixedZone("", sec)
+	} else if srcLoc = e.z.locs[src]; srcLoc == nil {
 		e.z.id(src)
 		srcLoc = e.z.locs[src]
 	}
@@ -639,23 +746,39 @@ func (e *env) rfcCase(t time.Time, l layoutSpec, src, from, to string) (caseDesc
 	if to != "" {
 		outLoc = toLoc
 	}
-	outOff := offsetAt(outLoc, inst)
 	class := "zone-in-input"
 	if l.TZ == "" {
 		class = "zone-from-argument"
 	}
-	if !yearOK(time.Unix(inst, 0).In(outLoc)) {
+	class += expectZoned(&d, inst, outLoc)
+	return d, true, class
+}
+
+// expectZoned states what the property demands of an RFC3339 result that must denote instant
+// inst in outLoc.  Where the zone offset is a whole number of minutes: exactly that instant,
+// that offset.  Where it has a seconds part (known finding F23: RFC3339 text cannot carry it):
+// the text must still be Go's own t.In(loc).Format(time.RFC3339) - wall reading, sign, hours and
+// minutes of the offset - so the instant it denotes is off by the seconds part only (< 60 s).
+func expectZoned(d *caseDesc, inst int64, outLoc *time.Location) string {
+	shown := time.Unix(inst, 0).In(outLoc)
+	if !yearOK(shown) {
 		d.Note = "guard: wall reading in the output zone outside years 1..9999 (not RFC3339 text)"
 		d.GuardWallYear = true
-		return d, true, class + "/guarded-wall-year"
+		return "/guarded-wall-year"
 	}
-	if !minuteAligned(outOff) {
-		// known finding (sub-minute offsets): only the model is compared on these
-		d.Note = "guard minute_aligned: output zone offset has a seconds part"
-		return d, true, class + "/guarded-subminute-offset"
+	back, err := time.Parse(time.RFC3339, shown.Format(time.RFC3339))
+	if err != nil {
+		return "/go-cannot-read-its-own-text"
 	}
-	d.ExpectInstant, d.ExpectOffset = i64(inst), i64(outOff)
-	return d, true, class
+	_, poff := back.Zone()
+	d.ExpectPrintedWall, d.ExpectOffset = i64(back.Unix()+int64(poff)), i64(int64(poff))
+	if minuteAligned(offsetAt(outLoc, inst)) {
+		d.ExpectInstant = i64(inst)
+		return ""
+	}
+	d.ExpectNear = i64(inst)
+	d.Note = "zone offset has a seconds part (F23): text must be Go's own, instant within the seconds part"
+	return "/subminute-offset"
 }
 
 func bigMillis(t time.Time) string {
@@ -742,7 +865,7 @@ func main() {
 			continue
 		}
 		if knownRejected(l) {
-			d.ExpectInstant, d.ExpectOffset, d.ExpectWall = nil, nil, nil
+			d.ExpectInstant, d.ExpectOffset, d.ExpectWall, d.ExpectPrintedWall, d.ExpectNear = nil, nil, nil, nil, nil
 			d.Note = "form advertised by SmartParse's doc comment but absent from its pattern table (go-corelib v0.0.14)"
 			sum.Hist("form:advertised-but-rejected-by-table")
 		}
@@ -780,6 +903,94 @@ func main() {
 		e.run(d, d.FromTZ != "" || d.ToTZ != "" || l.TZ != "" || nontrivialT(t))
 	}
 
+	// 2b. zones and eras whose offset lies strictly between -01:00 and 00:00 (found by scanning the
+	// installed zone database), and numeric offsets of that kind carried by the text itself: the
+	// sign of the printed offset is carried by the minutes alone there
+	eras := negSubHourEras(listZoneNames())
+	var eraNames []string
+	for _, er := range eras {
+		eraNames = append(eraNames, fmt.Sprintf("%s %+ds", er.Zone, er.Off))
+	}
+	sum.Extra["negative_sub_hour_eras_in_zone_database"] = eraNames
+	maxEras := o.Count(14, 60)
+	stepE := 1
+	if len(eras) > maxEras {
+		stepE = (len(eras) + maxEras - 1) / maxEras
+	}
+	for ei := int(o.Seed) % stepE; ei < len(eras); ei += stepE {
+		er := eras[ei]
+		if e.z.id(er.Zone) == 0 {
+			continue
+		}
+		loc := e.z.locs[er.Zone]
+		for k := 0; k < o.Count(8, 60); k++ {
+			sec := er.Start + r.Int63n(er.End-er.Start)
+			switch k {
+			case 0:
+				sec = er.End - 1
+			case 1:
+				sec = er.Start
+			}
+			t := time.Unix(sec, int64(r.Intn(1000))*1000000).UTC()
+			sum.Hist("instant:negative-sub-hour-offset-era")
+			// zone in the text (Z), shown in the zone
+			d := caseDesc{Fn: "rfc", Datetime: t.Format("2006-01-02T15:04:05.000Z"), ToTZ: er.Zone}
+			sum.Hist("rfc:neg-sub-hour/to" + expectZoned(&d, sec, loc))
+			e.run(d, true)
+			// zone-less reading bound to the zone
+			shown := t.In(loc)
+			rd, _ := time.ParseInLocation("2006-01-02T15:04:05", shown.Format("2006-01-02T15:04:05"), time.UTC)
+			d = caseDesc{Fn: "rfc", Datetime: shown.Format("2006-01-02 15:04:05"), FromTZ: er.Zone}
+			sum.Hist("rfc:neg-sub-hour/from" + expectZoned(&d, dateIn(loc, rd.Unix()), loc))
+			e.run(d, true)
+			if _, tz, err := times.SmartParse("2020-06-01T00:00:00-" + er.Zone); err == nil && tz {
+				d = caseDesc{Fn: "rfc", Datetime: shown.Format("01/02/2006 15:04:05") + "-" + er.Zone}
+				sum.Hist("rfc:neg-sub-hour/suffix" + expectZoned(&d, dateIn(loc, rd.Unix()), loc))
+				e.run(d, true)
+			}
+			d = caseDesc{Fn: "layout", Datetime: t.Format(time.RFC3339Nano), Layout: time.RFC3339Nano, LayoutTZ: "true", ToTZ: er.Zone}
+			expectZoned(&d, sec, loc)
+			e.run(d, true)
+			unit := []string{"SECOND", "MILLISECOND"}[k%2]
+			n := sec
+			if unit == "MILLISECOND" {
+				n = sec*1000 + int64(t.Nanosecond()/1000000)
+			}
+			d = caseDesc{Fn: "fromepoch", Epoch: strconv.FormatInt(n, 10), Unit: unit, TZ: []string{er.Zone}}
+			sum.Hist("fromepoch:neg-sub-hour" + expectZoned(&d, sec, loc))
+			e.run(d, true)
+		}
+	}
+	// numeric offsets in the text, kept in the output (no toTZ) or converted
+	fixedOffs := []int{-1800, -60, -3540, -2640, -2700, -900, 1800, 60, 3540, -3600, 3600, -5400, 5400, -34200, 45900, -43200, 50400, 0}
+	offForms := []layoutSpec{}
+	for _, l := range layouts {
+		if l.TZ == "off" && strings.TrimSpace(l.Off) != "-07" && !knownRejected(l) {
+			offForms = append(offForms, l)
+		}
+	}
+	for i := 0; i < o.Count(360, 20000); i++ {
+		off := fixedOffs[i%len(fixedOffs)]
+		if i >= 2*len(fixedOffs) && r.Chance(0.5) {
+			off = (r.Intn(28*60+1) - 14*60) * 60
+		}
+		t, class := g.instant(nil)
+		to := ""
+		if r.Chance(0.3) {
+			to = pickZone()
+		}
+		d, ok, cls := e.rfcCase(t, offForms[r.Pick(len(offForms))], fmt.Sprintf("fixed:%d", off), optZone(), to)
+		if !ok {
+			continue
+		}
+		sum.Hist("instant:" + class)
+		sum.Hist("rfc:numeric-offset-in-text/" + cls)
+		if off > -3600 && off < 0 {
+			sum.Hist("rfc:numeric-offset-between--01:00-and-00:00")
+		}
+		e.run(d, true)
+	}
+
 	// 3. epoch: instant -> number -> text, both units, every instant class
 	n3 := o.Count(1200, 30000)
 	for i := 0; i < n3; i++ {
@@ -810,13 +1021,7 @@ func main() {
 			back.TZ = []string{zn}
 			outLoc = e.z.locs[zn]
 		}
-		if off := offsetAt(outLoc, t.Unix()); minuteAligned(off) && yearOK(t.In(outLoc)) {
-			back.ExpectInstant, back.ExpectOffset = i64(t.Unix()), i64(off)
-		} else {
-			back.Note = "guard: sub-minute offset or wall year outside 1..9999"
-			back.GuardWallYear = !yearOK(t.In(outLoc))
-			sum.Hist("fromepoch:guarded")
-		}
+		sum.Hist("fromepoch" + expectZoned(&back, t.Unix(), outLoc))
 		e.run(back, true)
 	}
 	// zone-less text bound by fromTZ, then to epoch
@@ -858,10 +1063,7 @@ func main() {
 			zn := pickZone()
 			d.TZ, outLoc = []string{zn}, e.z.locs[zn]
 		}
-		if off := offsetAt(outLoc, sec); minuteAligned(off) && yearOK(time.Unix(sec, 0).In(outLoc)) {
-			d.ExpectInstant, d.ExpectOffset = i64(sec), i64(off)
-		}
-		d.GuardWallYear = !yearOK(time.Unix(sec, 0).In(outLoc))
+		sum.Hist("fromepoch" + expectZoned(&d, sec, outLoc))
 		e.run(d, true)
 	}
 
@@ -901,9 +1103,7 @@ func main() {
 			if to != "" {
 				outLoc = e.z.locs[to]
 			}
-			if off := offsetAt(outLoc, rd.Unix()); minuteAligned(off) && yearOK(rd.In(outLoc)) {
-				d.ExpectInstant, d.ExpectOffset = i64(rd.Unix()), i64(off)
-			}
+			expectZoned(&d, rd.Unix(), outLoc)
 		case !x.zone && !fb && from == "" && to == "":
 			d.ExpectWall = i64(rd.Unix())
 		case !x.zone && !fb:
@@ -916,9 +1116,7 @@ func main() {
 			if to != "" {
 				outLoc = e.z.locs[to]
 			}
-			if off := offsetAt(outLoc, inst); minuteAligned(off) && yearOK(time.Unix(inst, 0).In(outLoc)) {
-				d.ExpectInstant, d.ExpectOffset = i64(inst), i64(off)
-			}
+			expectZoned(&d, inst, outLoc)
 		default:
 			d.Note = "layoutTZ flag contradicts the layout: model correspondence only"
 		}
